@@ -17,7 +17,7 @@ scalar JSON
 type Human implements Node { id: ID! name(upper: Boolean): String! friends: [Human!]! best: Human age: Int tag(meta: JSON): String }
 input TagIn { label: String weight: Int }
 input HumanIn { name: String tags: [TagIn!] }
-type Query { node(id: ID!): Node getHumans: [Human!]! me: Human findHumans(filter: [HumanIn!], grid: [[Int]], first: Int): [Human!]! }
+type Query { node(id: ID!): Node getHumans: [Human!]! me: Human findHumans(filter: [HumanIn!], grid: [[Int]], first: Int): [Human!]! maybe: [Human] nobody: [Human] }
 type Mutation { saveHuman(name: String!): Human! }
 `
 const vSB = `
@@ -70,6 +70,8 @@ func vReadmeWorld(k int) *vWorld {
 	w.roots["Query.getHumans"] = vLazyRefs{"getHumans"}
 	w.roots["Query.me"] = vLazyRef{"me"}
 	w.roots["Query.findHumans"] = []vRef{{"Human", "h1"}}
+	w.roots["Query.maybe"] = []interface{}{vRef{"Human", "h1"}, nil, vRef{"Human", "h2"}}
+	w.roots["Query.nobody"] = []interface{}{nil, nil}
 	w.roots["Query.getAnimals"] = []vRef{{"Animal", "a1"}}
 	w.roots["Mutation.saveHuman"] = vRef{"Human", "h2"}
 	w.roots["Mutation.savePhone"] = vRef{"Human", "h1"}
@@ -126,6 +128,11 @@ func vReadmeOps() []vOp {
 		{q: `query($j: JSON) { me { tag(meta: $j) phone } }`, vars: func() map[string]interface{} {
 			return map[string]interface{}{"j": map[string]interface{}{"a": []interface{}{1, "x"}}}
 		}},
+		// lists whose entries may be null
+		{q: `{ maybe { name } }`},
+		{q: `{ maybe { name phone } }`},
+		{q: `{ nobody { name } me { name } }`},
+		{q: `{ nobody { phone } }`},
 		// a field name that occurs further down in an earlier sibling (the executor looks selections up by name)
 		{q: `{ me { best { friends { name } } friends { best { phone } } } }`},
 		{q: `{ getAnimals { owner { pets { name } } name } getHumans { pets { owner { email } } } }`},
